@@ -17,7 +17,7 @@ func init() {
 	register(&propDef{
 		ID: "C04",
 		Meta: propMeta{
-			Explanation: "Decides on every path of the server's handlers that the authorization mechanisms are in front of every key use: (R04a) every chi route other than the frozen public set {/health, /directory} is registered on a router derived from With(authmodel.Middleware(s.auth)), and the middleware calls the next handler only after Authenticate returned a nil error, with the authenticated UserInfo in the request context; (R04b) in every authenticated handler, any touch of Server.tokens, signinit.Init/InitKey, Token.GetKey or Key.Sign* (directly or through same-package helpers) is guarded by Config.GetKey err==nil AND UserInfo.Allowed(keyConf)==true where keyConf is the value that GetKey returned, and the token/key actually used derive from that keyConf / the same key name; (R04c) the failing sides of those guards return httperror problems whose Status folds to 401/403, as do the named refusals of the authenticators; (R04d) identity-bearing headers (X-Forwarded-*, Forwarded, X-Real-Ip, Ssl-Client-*) and TLS peer certificates are read only inside internal/realip, headers only on the trusted-proxy side, RemoteAddr is assigned only by realip.Middleware, and the trusted marker is set only under `proxied`; (R04e) no dereference of a missed map lookup anywhere in the module (malformed configuration yields an error, not a crash); (R04f) the key listing appends a name only when entry and resolved alias are not hidden, the alias resolved, and Allowed(resolved) is true; (R04g) each Authenticator returns success only after the client was recognised / the policy allowed, and the roles come from the recognised client; Allowed implementations return true only from a role/key equality; (R04i) trust configuration is used as configured: on the authentication path certificates are added only to pools created by that very call (never to a configured pool), trusted_proxies entries are parsed verbatim, and a bare address gets the full-length mask of its address family.",
+			Explanation: "Decides on every path of the server's handlers that the authorization mechanisms are in front of every key use: (R04a) every chi route other than the frozen public set {/health, /directory} is registered on a router derived from With(authmodel.Middleware(s.auth)), and the middleware calls the next handler only after Authenticate returned a nil error, with the authenticated UserInfo in the request context; (R04b) in every authenticated handler, any touch of Server.tokens, signinit.Init/InitKey, Token.GetKey or Key.Sign* (directly or through same-package helpers) is guarded by Config.GetKey err==nil AND UserInfo.Allowed(keyConf)==true where keyConf is the value that GetKey returned, and the token/key actually used derive from that keyConf / the same key name; (R04c) the failing sides of those guards return httperror problems whose Status folds to 401/403, as do the named refusals of the authenticators; (R04d) identity-bearing headers (X-Forwarded-*, Forwarded, X-Real-Ip, Ssl-Client-*) and TLS peer certificates are read only inside internal/realip, headers only on the trusted-proxy side, RemoteAddr is assigned only by realip.Middleware, and the trusted marker is set only under `proxied`; (R04e) no dereference of a missed map lookup anywhere in the module (malformed configuration yields an error, not a crash); (R04f) the key listing appends a name only when entry and resolved alias are not hidden, the alias resolved, and Allowed(resolved) is true; (R04g) each Authenticator returns success only after the client was recognised / the policy allowed, and the roles come from the recognised client; Allowed implementations return true only from a role/key equality; (R04i) trust configuration is used as configured: on the authentication path certificates are added only to pools created by that very call (never to a configured pool), trusted_proxies entries are parsed verbatim, and a bare address gets the full-length mask of its address family. (R04h) in a handler that resolves a key, every use of the ResponseWriter after the lookup and every success return is behind GetKey err==nil and Allowed(keyConf)==true.",
 			NotDecided:  "correctness of X.509 chain matching (crypto/x509), of the OPA policy's answers, 401-vs-403 chosen by policy text at run time, and whether role-set semantics beyond 'an equality test guards true' are right.",
 			Assumptions: []string{"chi applies With() middlewares to every route registered on the derived router", "http.Request context values are only set by the middlewares enumerated"},
 		},
